@@ -2,6 +2,7 @@
 import itertools
 from pyvc.api import contract, lemma, record, native, Loop
 import specs.brackets  # noqa: F401
+from contracts.common_lemmas import lemma_count_pos, lemma_split_join  # noqa: F401
 
 LEVEL = 'proof'
 BLOCK = 'rogw/tranp/view/helper/block.py'
@@ -146,20 +147,6 @@ contract(BLOCK, 'BlockParser.break_separator', 'C18',
 
 
 DECO = 'rogw/tranp/view/helper/decorator.py'
-
-
-@lemma('C18', requires=['len(c) == 1'], ensures=['s.count(c) >= 0', '(s.count(c) > 0) == (c in s)'], decreases='len(s)')
-def lemma_count_pos(s: str, c: str):
-	"""str.count is positive exactly when the character occurs."""
-	if c in s:
-		lemma_count_pos(s[s.find(c) + 1:], c)
-
-
-@lemma('C18', requires=['len(sep) == 1'], ensures=['len(s.split(sep)) >= 1', 'sep.join(s.split(sep)) == s'], decreases='len(s)')
-def lemma_split_join(s: str, sep: str):
-	"""Joining what split produced gives the string back."""
-	if sep in s:
-		lemma_split_join(s[s.find(sep) + 1:], sep)
 
 
 @lemma('C18', requires=['len(sep) == 1', 'sep in s'],
